@@ -16,4 +16,4 @@ for id in "$@"; do
   elif [ $rc -eq 0 ]; then echo "MISSED $id $(basename "$patch")"
   else echo "HARNESS-ERROR($rc) $id $(basename "$patch")"; echo "$out" | tail -5; fi
 done
-rm -rf "$d" /var/tmp/mck-mutant-out
+rm -rf "$d" "/var/tmp/mck-out-$(basename "$d")"
